@@ -46,7 +46,7 @@ EXHAUSTIVE_NOTE = "every single-bit flip of every magic / signature and of every
 
 
 def budget(tier):
-    return 10000 if tier == "quick" else 100000
+    return 20000 if tier == "quick" else 100000
 
 
 def scratch_dir():
